@@ -21,7 +21,7 @@ assert [l for l in sh("git -C /verif status --porcelain --untracked-files=no").s
 for name in sys.argv[1:]:
     b = "box-" + name
     mapping = {}
-    revs = sh("git -C /repo rev-list --reverse main..%s" % b).stdout.split()
+    revs = sh("git -C /repo rev-list --no-merges --reverse main..%s" % b).stdout.split()
     for c in revs:
         subj = sh("git -C /repo log -1 --format=%%s %s" % c).stdout.strip()
         old = sh("git -C /repo log -1 --format=%%h %s" % c).stdout.strip()
